@@ -526,7 +526,51 @@ func (v slVal) render() string {
 	return v.class
 }
 
+// splitTypeList splits "A Array<B C> D" at top-level blanks.
+func splitTypeList(inner string) []string {
+	var parts []string
+	depth, start := 0, 0
+	for i, c := range inner {
+		switch c {
+		case '<':
+			depth++
+		case '>':
+			depth--
+		case ' ':
+			if depth == 0 {
+				parts = append(parts, inner[start:i])
+				start = i + 1
+			}
+		}
+	}
+	return append(parts, inner[start:])
+}
+
+func hasArrayElem(es []string) bool {
+	for _, e := range es {
+		if strings.HasPrefix(e, "Array<") {
+			return true
+		}
+	}
+	return false
+}
+
+// addElem adds an element type to an array's element list. ti keeps one Array variant per element list:
+// a second array element is merged into it (`[[1], ["x"]]` is Array<Array<Integer String>>), recursively.
 func addElem(es []string, c string) []string {
+	if strings.HasPrefix(c, "Array<") {
+		for i, e := range es {
+			if strings.HasPrefix(e, "Array<") {
+				inner := splitTypeList(e[6 : len(e)-1])
+				for _, p := range splitTypeList(c[6 : len(c)-1]) {
+					inner = addElem(inner, p)
+				}
+				out := append([]string{}, es...)
+				out[i] = "Array<" + strings.Join(inner, " ") + ">"
+				return out
+			}
+		}
+	}
 	for _, e := range es {
 		if e == c {
 			return es
@@ -571,7 +615,7 @@ func straightLinePrograms(thorough bool) []struct {
 		}},
 		{"c = a.first", "optional-unify-call", func(e map[string]slVal) (string, bool) {
 			v, ok := e["a"]
-			if !ok || v.class != "Array" || len(v.elems) == 0 {
+			if !ok || v.class != "Array" || len(v.elems) == 0 || hasArrayElem(v.elems) {
 				return "", false
 			}
 			e["c"] = slVal{class: canonType("Union<" + strings.Join(addElem(v.elems, "NilClass"), " ") + ">")}
@@ -579,7 +623,7 @@ func straightLinePrograms(thorough bool) []struct {
 		}},
 		{"c = a.first\nb = a", "receiver-after-optional-unify-call", func(e map[string]slVal) (string, bool) {
 			v, ok := e["a"]
-			if !ok || v.class != "Array" || len(v.elems) == 0 {
+			if !ok || v.class != "Array" || len(v.elems) == 0 || hasArrayElem(v.elems) {
 				return "", false
 			}
 			e["c"] = slVal{class: canonType("Union<" + strings.Join(addElem(v.elems, "NilClass"), " ") + ">")}
@@ -596,7 +640,7 @@ func straightLinePrograms(thorough bool) []struct {
 		}},
 		{"c = a[0]", "array-index", func(e map[string]slVal) (string, bool) {
 			v, ok := e["a"]
-			if !ok || v.class != "Array" || len(v.elems) == 0 {
+			if !ok || v.class != "Array" || len(v.elems) == 0 || hasArrayElem(v.elems) {
 				return "", false
 			}
 			e["c"] = slVal{class: canonType("Union<" + strings.Join(addElem(v.elems, "NilClass"), " ") + ">")}
@@ -633,6 +677,32 @@ func straightLinePrograms(thorough bool) []struct {
 				return "", false
 			}
 			v.elems = addElem(v.elems, "Symbol")
+			e["a"] = v
+			return "a", true
+		}},
+		{"a = [[1]]", "nested-array-literal", func(e map[string]slVal) (string, bool) {
+			e["a"] = slVal{class: "Array", elems: []string{"Array<Integer>"}}
+			return "a", true
+		}},
+		{"a = [[1], [\"s\"], 2.5]", "nested-array-literal", func(e map[string]slVal) (string, bool) {
+			e["a"] = slVal{class: "Array", elems: []string{"Array<Integer String>", "Float"}}
+			return "a", true
+		}},
+		{"a << [\"s\"]", "shovel-array", func(e map[string]slVal) (string, bool) {
+			v, ok := e["a"]
+			if !ok || v.class != "Array" || len(v.elems) == 0 {
+				return "", false
+			}
+			v.elems = addElem(v.elems, "Array<String>")
+			e["a"] = v
+			return "a", true
+		}},
+		{"a.push([:q, 1])", "push-array", func(e map[string]slVal) (string, bool) {
+			v, ok := e["a"]
+			if !ok || v.class != "Array" || len(v.elems) == 0 {
+				return "", false
+			}
+			v.elems = addElem(v.elems, "Array<Symbol Integer>")
 			e["a"] = v
 			return "a", true
 		}},
